@@ -1,4 +1,5 @@
 import WcModel.Properties.C01
+import WcModel.Properties.C01faithful
 #print axioms WcModel.C01.wrap_fullmatch
 #print axioms WcModel.C01.C01_partial
 #print axioms WcModel.C01.oracle_is_spec
@@ -9,3 +10,12 @@ import WcModel.Properties.C01
 #print axioms WcModel.C01.D1_excluded_by_startSafe
 #print axioms WcModel.C01.D3_witness
 #print axioms WcModel.C01.D2_fixed_witness
+#print axioms WcModel.C01.ppTop_c01Scope
+#print axioms WcModel.C01.C01_faithful
+#print axioms WcModel.C01.fnX_ofFlags
+#print axioms WcModel.C01.codeMatch_eq
+#print axioms WcModel.C01.C01_faithful_code
+#print axioms WcModel.C01.specMatch_eq
+#print axioms WcModel.C01.C01_faithful_spec
+#print axioms WcModel.C01.faithful_nonvacuous
+#print axioms WcModel.C01.ok_excludes
